@@ -16,10 +16,11 @@ if ! git -C "$wt" apply "$dst/patch.diff"; then echo "RESULT patch does not appl
 (cd "$wt" && go build ./... && go build -tags verif ./...) || { echo "RESULT does-not-compile"; exit 0; }
 if ls "$dst"/*_test.go >/dev/null 2>&1; then
   cp "$dst"/*_test.go "$wt"/
-  (cd "$wt" && go test -vet=off -count=1 -run 'Demo|Seed' . >/tmp/seedeval-$$.log 2>&1); rc1=$?
+  pat=$(grep -h "^func Test" "$dst"/*_test.go | sed 's/^func \(Test[A-Za-z0-9_]*\).*/\1/' | paste -sd'|')
+  (cd "$wt" && go test -vet=off -count=1 -run "^($pat)\$" . >/tmp/seedeval-$$.log 2>&1); rc1=$?
   echo "demo with change: exit $rc1 (expected non-zero)"; grep -m3 -- "--- FAIL\|panic:" /tmp/seedeval-$$.log
   git -C "$wt" apply -R "$dst/patch.diff"
-  (cd "$wt" && go test -vet=off -count=1 -run 'Demo|Seed' . >/tmp/seedeval-$$.log 2>&1); rc2=$?
+  (cd "$wt" && go test -vet=off -count=1 -run "^($pat)\$" . >/tmp/seedeval-$$.log 2>&1); rc2=$?
   echo "demo without change: exit $rc2 (expected 0)"
   rm -f "$wt"/demo*_test.go "$wt"/seed*_test.go; for f in "$dst"/*_test.go; do rm -f "$wt/$(basename $f)"; done
   git -C "$wt" apply "$dst/patch.diff"
